@@ -206,8 +206,11 @@ def main():
                  {v[1]["form"] for v in fnvals} == {"def", "lambda", "method"} and
                  any(v[1]["kwdef"] >= 2 for v in fnvals), "vacuity: function-value grammar")
 
+  vkey = lambda v: json.dumps(v, sort_keys=True)  # noqa: E731
+  sigvals = {json.dumps(t): sorted(vs, key=vkey) for t, vs in exp["sigvals"]}
+
   def vals_for(ann):          # = AnnGrammar.ValsFor
-    return vals + fnvals if ann in siganns else vals + fnsmall if ann in fnother else vals
+    return sigvals[json.dumps(ann)] if ann in siganns else vals + fnsmall if ann in fnother else vals
   # 2. spec -> CPython: the value terms are what the expressions really evaluate to
   for v in vals:
     got = terms.encode(terms.eval_value(terms.val_src(v)))
@@ -290,7 +293,7 @@ def main():
   run.put("exhaustive", thorough)
   common.require(nerr > 500 and total - nerr > 500, "vacuity: outcomes not mixed")
   run.sample({"ann": asrc(cases[len(cases) // 2]["ann"]),
-              "val": vsrc(cases[len(cases) // 2]["val"]),
+              "val": _vkey(cases[len(cases) // 2]["val"]),
               "site": cases[len(cases) // 2]["site"], "err": cases[len(cases) // 2]["err"]})
   # vacuity of the function-value family (counts only; the verdict is TLC's)
   if not a.replay:
@@ -306,7 +309,7 @@ def main():
                                "callsig_errors": sum(1 for c in fam if c["err"]),
                                "kwonly_default_below_mandatory": len(edge),
                                "forms": sorted({c["val"][1]["form"] for c in fam})})
-    run.sample({"ann": asrc(edge[0]["ann"]) if edge else "", "val": vsrc(edge[0]["val"]) if edge else "",
+    run.sample({"ann": asrc(edge[0]["ann"]) if edge else "", "val": _vkey(edge[0]["val"]) if edge else "",
                 "site": edge[0]["site"] if edge else "", "err": edge[0]["err"] if edge else False})
     common.require(len(fam) == 3 * len(fnvals) * (maxn + 1), "vacuity: function values x Callable[[..], ..] incomplete")
     common.require(sum(1 for c in fam if c["err"]) >= 300 and sum(1 for c in fam if not c["err"]) >= 300,
@@ -314,7 +317,7 @@ def main():
     common.require(len(edge) >= 150 and {c["site"] for c in edge} == {"arg", "ret", "assign"} and
                    {c["val"][1]["form"] for c in edge} == {"def", "lambda", "method"},
                    "vacuity: keyword-only-default boundary not exercised")
-    common.require(len(nested) >= 3 * len(fnvals) and len(plain) >= 3 * len(fnsmall) * len(fnother),
+    common.require(len(nested) >= 3 * 2 * sum(1 for v in fnvals if v[1]["form"] == "def") and len(plain) >= 3 * len(fnsmall) * len(fnother),
                    "vacuity: function values against Optional/Union/non-callable annotations")
   fams = {}
   for idx, fails in bads:
